@@ -84,7 +84,7 @@ MUTANTS = [
   "                    Value::Integer(x) => Ok(x as f64 as $t),\n                    Value::NegativeInteger(x) => Ok(x as f64 as $t),", ["C05"]),
  ("nonzero_signed_accepts_zero_neg", "src/impls.rs",
   "                    Value::Integer(x) if x == 0 => {\n                      Err(take_cf_content(E::error::<V>(\n                          None,\n                          ErrorKind::Unexpected {\n                              msg: format!(\n                                  \"a non-zero integer value lower than `{}` was expected, but found a zero\",\n                                  <$t>::MAX\n                              ),",
-  "                    Value::Integer(x) if x == 0 => {\n                      Err(take_cf_content(E::error::<V>(\n                          None,\n                          ErrorKind::Unexpected {\n                              msg: format!(\n                                  \"a non-zero integer value was expected, but found a zero\"\n                              ),", ["C05"]),
+  "                    Value::Integer(x) if x == 0 => {\n                      Err(take_cf_content(E::error::<V>(\n                          None,\n                          ErrorKind::Unexpected {\n                              msg: format!(\n                                  \"an integer value was expected, but found a zero\"\n                              ),", ["C05"]),
 ]
 
 PROPS = ["C01","C02","C03","C04","C05","C06","C07","C08","C09","C10","C11","C12","C13","C14","C15","C17","C18","C19"]  # C16 / C20 have their own build paths: see seeded_eval.py
